@@ -739,6 +739,60 @@ main(int argc, char ** argv)
 			vh_free(d);
 			crypto_aesctr_free(stream);
 			key_done(&k);
+		} else if (op[0] == 'J') {
+			/*
+			 * J <key> <nonce> <data> <order> <cut>: input and output are the
+			 * two halves of ONE block, the output starting exactly where the
+			 * input ends (order 0) or ending exactly where the input starts
+			 * (order 1): adjacent, not overlapping.  One crypto_aesctr_buf
+			 * call, and the stream interface cut at <cut>.
+			 */
+			struct keyinfo k;
+			struct crypto_aesctr * stream;
+			uint64_t nonce = vh_tok_u(&L, 2);
+			size_t dlen, cut, j;
+			uint8_t * d = vh_unhex(vh_tok(&L, 3), &dlen);
+			int order = (int)vh_tok_u(&L, 4);
+			void * fb;
+			uint8_t * blk, * in, * out, * want;
+			const char * bad = NULL;
+
+			if (L.ntok != 6)
+				vh_die("bad J line");
+			cut = (size_t)vh_tok_u(&L, 5);
+			if (cut > dlen)
+				cut = dlen;
+			key_setup(&k, vh_tok(&L, 1));
+			if (!k.present)
+				vh_die("J needs a key");
+			blk = vh_exact(NULL, 2 * dlen, &fb);
+			in = order ? blk + dlen : blk;
+			out = order ? blk : blk + dlen;
+			want = vh_xmalloc(dlen ? dlen : 1);
+			refaes_ctr(k.rk, k.nr, nonce, 0, d, want, dlen);
+			memcpy(in, d, dlen);
+			memset(out, 0x5c, dlen);
+			crypto_aesctr_buf(k.lib, nonce, in, out, dlen);
+			if (memcmp(out, want, dlen))
+				bad = "crypto_aesctr_buf with adjacent buffers differs from the model";
+			if (memcmp(in, d, dlen))
+				bad = "crypto_aesctr_buf with adjacent buffers changed its input";
+			memset(out, 0x5c, dlen);
+			if ((stream = crypto_aesctr_init(k.lib, nonce)) == NULL)
+				vh_die("crypto_aesctr_init failed");
+			crypto_aesctr_stream(stream, in, out, cut);
+			crypto_aesctr_stream(stream, in + cut, out + cut, dlen - cut);
+			crypto_aesctr_free(stream);
+			if (bad == NULL && memcmp(out, want, dlen))
+				bad = "crypto_aesctr_stream with adjacent buffers differs from the model";
+			for (j = 0; bad == NULL && j < dlen; j++)
+				if (in[j] != d[j])
+					bad = "crypto_aesctr_stream with adjacent buffers changed its input";
+			printf("R adjacent %s\n", bad ? bad : "ok");
+			vh_free(want);
+			free(fb);
+			vh_free(d);
+			key_done(&k);
 		} else if (op[0] == 'H') {
 			/*
 			 * H <key> <nonce> <extra>: ONE crypto_aesctr_stream call of
